@@ -20,7 +20,7 @@ from common import InfraError, lean_batch, LEAN
 
 
 QUOTA_QUICK = {"write_config": 24, "bind_config": 16, "call_eqv:derived": 28}
-QUOTA_THOROUGH = {"write_config": 400, "bind_config": 80, "call_eqv:derived": 260}
+QUOTA_THOROUGH = {"write_config": 110, "bind_config": 60, "call_eqv:derived": 130}
 
 
 def _refine_key(x):
@@ -77,7 +77,7 @@ def run(ctx):
 
     opts = {"n_args": ctx.scale(2, 3), "n_cfg": 8,
             "quota": QUOTA_QUICK if ctx.quick else QUOTA_THOROUGH,
-            "ordinary": ctx.scale(12, 120), "chain_procs": ctx.scale(2, 10), "chain_attempts": ctx.scale(5, 24),
+            "ordinary": ctx.scale(12, 60), "chain_procs": ctx.scale(2, 6), "chain_attempts": ctx.scale(5, 14),
             "model_cases_per_op": ctx.scale(6, 40)}
     t1 = time.time()
     recs = run_workers(ctx, [(n, s, ctx.seed, opts) for n, s in c10_pool.POOL.items()],
